@@ -33,3 +33,36 @@ Theorem C05_specvalid_examples :
   strict_valid_message 8 ex_msg_alias = VOverlap.
 Proof. exact (conj ex_msg_strictly_valid (conj ex_bad_pad_rejected ex_alias_rejected)). Qed.
 Print Assumptions C05_specvalid_examples.
+
+(* strictly valid message: the strict and the lenient decoder agree (tree and cost), for every
+   fuel and caps *)
+From CV Require Import Core.Arith Core.Reader Core.ReadOps Spec.WalkProofs Spec.StrictWalk.
+Theorem C05_strict_valid_decoders_agree : forall fuel0 m, strict_valid_message fuel0 m = VOk ->
+  forall fuel dcap pcap, dec_ptr true fuel dcap pcap m 0 0 = dec_ptr false fuel dcap pcap m 0 0.
+Proof. exact strict_valid_decoders_agree. Qed.
+Print Assumptions C05_strict_valid_decoders_agree.
+
+(* ... hence the generic walker over the Go-faithful accessors (C03's walk_eq_spec) returns
+   exactly the STRICT specification tree of a strictly valid message, with walk_eq_spec's
+   premises ([vrepr] included: zero-sized-element lists of 2^29 or more elements are strictly
+   valid but refused by the reader) *)
+Theorem C05_strict_valid_walk : forall (c : config) fuel0 (m : list (list Z)) (dcap pcap : Z),
+  cfg_strict c = true -> bytes_ok m -> segs_small m -> strict_valid_message fuel0 m = VOk ->
+  forall fuel rl s depth,
+  seg_at m 0 = Some s -> in_words s 0 1 = true ->
+  Z.of_nat fuel < depth < 18446744073709551616 -> 0 <= rl ->
+  spec_cost true fuel dcap pcap m 0 0 <= rl ->
+  vrepr fuel pcap m 0 0 ->
+  (let '(r, rl1) := readPtr true m rl 0 s (8 * 0) depth in
+   walk c (mkFix true true true) m dcap pcap fuel rl1 r)
+  = (spec_decode true fuel dcap pcap m 0 0, rl - spec_cost true fuel dcap pcap m 0 0).
+Proof. exact strict_valid_walk. Qed.
+Print Assumptions C05_strict_valid_walk.
+
+Theorem C05_strict_valid_walk_applies :
+  (let '(r, rl1) := readPtr true ex_msg 1000000 0 (nth 0 ex_msg []) (8 * 0) 64 in
+   walk ex_cfg (mkFix true true true) ex_msg 64 8 6 rl1 r)
+  = (spec_decode true 6 64 8 ex_msg 0 0, 1000000 - spec_cost true 6 64 8 ex_msg 0 0)
+  /\ spec_decode true 6 64 8 ex_msg 0 0 = ex_tree.
+Proof. exact strict_valid_walk_applies. Qed.
+Print Assumptions C05_strict_valid_walk_applies.
